@@ -210,6 +210,9 @@ func c11Scenarios(r *verdict.Run, race bool) {
 		for _, cons := range consumers {
 			all = append(all, scn{kind: "d:stolen-after-wake", form: f, consumer: cons})
 		}
+		for _, pusher := range [][]string{{"RPUSH", "q", "el-2"}, {"LPUSH", "q", "el-2"}, {"RPUSHX", "q", "el-2"}, {"LPUSHX", "q", "el-2"}, {"LMOVE", "src", "q", "LEFT", "RIGHT"}, {"RPOPLPUSH", "src", "q"}} {
+			all = append(all, scn{kind: "g:second-push-while-first-waiter-woken", form: f, consumer: pusher})
+		}
 		if f.multi {
 			all = append(all, scn{kind: "f:multi-key-woken-once", form: f, multi: true})
 			all = append(all, scn{kind: "d:stolen-after-wake", form: f, multi: true, consumer: consumers[0]})
@@ -404,6 +407,68 @@ func c11Scenarios(r *verdict.Run, race bool) {
 				ok = a && b
 			}
 			// right-popping forms take the other end: only conservation is asserted for element identity
+		case 'g':
+			// two waiters; the first is woken by a push and parked before its retry, so the list is non-empty while the
+			// second waiter is still blocked; a second, separate push must wake the second waiter
+			w2, err := newWaiter(e)
+			if err != nil {
+				return
+			}
+			defer w2.cn.Close()
+			if sc.consumer[0] == "LMOVE" || sc.consumer[0] == "RPOPLPUSH" {
+				s.do("RPUSH", "src", "el-2")
+				pushed = append(pushed, "el-2")
+			}
+			c.Ctl("watch blk:before-wait")
+			if tok, parked := s.parkAt(w1, "blk:after-wake", cmd); parked {
+				_ = tok
+				r.Inconclusive("unexpected immediate wake")
+				return
+			}
+			from := c.EventCount()
+			w2.issue(cmd, 30*time.Second)
+			s.logf("client %d: %s", w2.id, cmdString(cmd))
+			if _, _, f := c.WaitEvent(from, func(ev host.Event) bool { return ev.Kind == "hit" && ev.Point == "blk:before-wait" && ev.ID == w2.id }, 5*time.Second); !f {
+				r.Inconclusive("second waiter did not reach blk:before-wait")
+				return
+			}
+			push("q", "el-1")
+			ev, _, found := c.WaitEvent(0, func(ev host.Event) bool { return ev.Kind == "parked" && ev.Point == "blk:after-wake" && ev.ID == w1.id }, 5*time.Second)
+			if !found {
+				r.Inconclusive("blk:after-wake not reached after a push")
+				return
+			}
+			s.logf("client %d woken and parked before its retry; the list holds el-1", w1.id)
+			s.do(sc.consumer...)
+			if sc.consumer[0] != "LMOVE" && sc.consumer[0] != "RPOPLPUSH" {
+				pushed = append(pushed, "el-2")
+			}
+			if !w2.finished(3 * time.Second) {
+				can := newCanary(s.e.port)
+				alive, why := can.check(3 * time.Second)
+				can.close()
+				if !alive {
+					s.r.Inconclusive("emulator unresponsive while waiting for a blocked client: " + why)
+					return
+				}
+				ll := s.do("LLEN", "q")
+				s.r.Report("sched/lost-wakeup/second-push-while-first-waiter-woken/"+sc.form.name, fmt.Sprintf("%s: client %d is still blocked 3 s after %s although the list holds %s elements and the only other waiter (client %d) was already woken by the first push", s.name, w2.id, cmdString(sc.consumer), ll, w1.id), s.rep())
+				s.release(ev.Token)
+				return
+			}
+			s.logf("client %d: reply %s", w2.id, w2.reply)
+			note(w2)
+			s.release(ev.Token)
+			if !w1.finished(3 * time.Second) {
+				ll := s.do("LLEN", "q")
+				s.r.Report("sched/lost-wakeup/woken-waiter-not-served-after-second-push/"+sc.form.name, fmt.Sprintf("%s: the first waiter (client %d) did not complete after its release although two elements had been pushed for two waiters (LLEN q = %s)", s.name, w1.id, ll), s.rep())
+				return
+			}
+			s.logf("client %d: reply %s", w1.id, w1.reply)
+			note(w1)
+			if len(elements(w1.reply)) != 1 || len(elements(w2.reply)) != 1 {
+				s.r.Report("sched/lost-wakeup/second-push/wrong-reply/"+sc.form.name, fmt.Sprintf("%s: replies %s and %s (each waiter must get one element)", s.name, w1.reply, w2.reply), s.rep())
+			}
 		case 'f':
 			// blocked on [a, q]; served through q; a later push to a must stay in a
 			from := c.EventCount()
@@ -422,7 +487,7 @@ func c11Scenarios(r *verdict.Run, race bool) {
 				ok = false
 			}
 		}
-		if sc.kind[0] == 'a' || sc.kind[0] == 'b' || sc.kind[0] == 'c' || sc.kind[0] == 'd' || sc.kind[0] == 'f' || sc.kind == "e:fifo-two-waiters" {
+		if sc.kind[0] == 'a' || sc.kind[0] == 'b' || sc.kind[0] == 'c' || sc.kind[0] == 'd' || sc.kind[0] == 'f' || sc.kind[0] == 'g' || sc.kind == "e:fifo-two-waiters" {
 			if sc.form.name != "BRPOP" && sc.form.name != "BRPOPLPUSH" || true {
 				s.conserve(pushed, delivered)
 			}
@@ -445,6 +510,23 @@ func c11Scenarios(r *verdict.Run, race bool) {
 	}
 	sort.Strings(pts)
 	r.Set("hook_points_hit", pts)
+}
+
+// c11Blocked counts the clients that CLIENT LIST flags as blocked.
+func c11Blocked(cn *wire.Conn) (int, string) {
+	cl, err := cn.Do("CLIENT", "LIST")
+	if err != nil {
+		return 0, ""
+	}
+	n := 0
+	for _, line := range strings.Split(cl.Text(), "\n") {
+		for _, f := range strings.Fields(line) {
+			if strings.HasPrefix(f, "flags=") && strings.Contains(f[6:], "b") {
+				n++
+			}
+		}
+	}
+	return n, cl.Text()
 }
 
 // c11Stress: producers, blocking consumers and non-blocking consumers on 1-3 lists; conservation, stuck-waiter and order checks.
@@ -478,6 +560,14 @@ func c11Stress(r *verdict.Run, runs int, race bool) {
 		nlists := 1 + rng.Intn(3)
 		lists := []string{"q0", "q1", "q2"}[:nlists]
 		nprod, nblk, nnb := 2+rng.Intn(3), 3+rng.Intn(4), 1+rng.Intn(2)
+		// every other run blocks without a timeout (a finite timeout heals a lost wake-up: the consumer simply comes
+		// back and finds the element), half of those without competing non-blocking consumers
+		infinite := run%2 == 1
+		if infinite && run%4 == 1 {
+			nnb = 0
+		}
+		var consMu sync.Mutex
+		var consConns []*wire.Conn
 		perProd := 60 + rng.Intn(80)
 		var mu sync.Mutex
 		pushedOrder := map[string][]string{} // per (producer,list) order of ids pushed with RPUSH
@@ -529,12 +619,36 @@ func c11Stress(r *verdict.Run, runs int, race bool) {
 			defer cn.Close()
 			cn.Proto = 3
 			cn.Timeout = 20 * time.Second
+			if infinite && blocking {
+				cn.Timeout = 10 * time.Minute // ended by closing the connection
+				consMu.Lock()
+				consConns = append(consConns, cn)
+				consMu.Unlock()
+			}
 			crng := rand.New(rand.NewSource(int64(run*1000 + idx)))
 			for !stop.Load() {
 				l := lists[crng.Intn(len(lists))]
 				var args []string
 				left := false
-				if blocking {
+				if blocking && infinite {
+					// wait on every list, so that any remaining element concerns every blocked consumer
+					form := crng.Intn(3)
+					if len(lists) == 1 {
+						form = crng.Intn(5)
+					}
+					switch form {
+					case 0:
+						args, left = append(append([]string{"BLPOP"}, lists...), "0"), true
+					case 1:
+						args = append(append([]string{"BRPOP"}, lists...), "0")
+					case 2:
+						args, left = append(append([]string{"BLMPOP", "0", strconv.Itoa(len(lists))}, lists...), "LEFT"), true
+					case 3:
+						args, left = []string{"BLMOVE", l, "sink", "LEFT", "RIGHT", "0"}, true
+					case 4:
+						args = []string{"BRPOPLPUSH", l, "sink", "0"}
+					}
+				} else if blocking {
 					to := []string{"0.05", "0.2", "0.02"}[crng.Intn(3)]
 					switch crng.Intn(5) {
 					case 0:
@@ -595,6 +709,7 @@ func c11Stress(r *verdict.Run, runs int, race bool) {
 		fin, _ := e.dial()
 		defer fin.Close()
 		deadline := time.Now().Add(10 * time.Second)
+		lastTotal, lastChange := int64(-1), time.Now()
 		for time.Now().Before(deadline) {
 			total := int64(0)
 			for _, l := range lists {
@@ -604,9 +719,40 @@ func c11Stress(r *verdict.Run, runs int, race bool) {
 			if total == 0 {
 				break
 			}
+			if total != lastTotal {
+				lastTotal, lastChange = total, time.Now()
+			}
+			if infinite && time.Since(lastChange) > 2*time.Second {
+				// nothing has been consumed for 2 s although every blocking consumer waits on every list
+				blocked, cl := c11Blocked(fin)
+				can := newCanary(e.port)
+				alive, _ := can.check(3 * time.Second)
+				can.close()
+				if alive && blocked > 0 {
+					r.Report("stress/lost-wakeup/blocked-on-non-empty-list", fmt.Sprintf("run %d: the lists hold %d elements and nothing has been consumed for 2 s, yet %d of %d consumers are blocked (timeout 0) on all of these lists (%v); CLIENT LIST:\n%s", run, total, blocked, nblk, lists, headLines(cl, 12)), map[string]any{"lists": lists, "producers": nprod, "blocking_consumers": nblk, "non_blocking_consumers": nnb})
+				}
+				break
+			}
 			time.Sleep(10 * time.Millisecond)
 		}
+		quiescent := true
+		if infinite {
+			// before the connections are closed every consumer must be back in a blocking command (it has then read all
+			// its earlier replies: closing a connection with an unread reply would look like a lost element)
+			quiescent = false
+			for t := time.Now(); time.Since(t) < 5*time.Second; time.Sleep(5 * time.Millisecond) {
+				if n, _ := c11Blocked(fin); n >= nblk {
+					quiescent = true
+					break
+				}
+			}
+		}
 		stop.Store(true)
+		consMu.Lock()
+		for _, cn := range consConns {
+			cn.Close()
+		}
+		consMu.Unlock()
 		consWg.Wait()
 		rest := map[string]int{}
 		for _, l := range append(append([]string{}, lists...), "sink") {
@@ -635,11 +781,16 @@ func c11Stress(r *verdict.Run, runs int, race bool) {
 				}
 			}
 		}
-		if len(lost) > 0 || len(dup) > 0 {
+		if !quiescent {
+			r.Count("stress_runs_without_quiescence", 1)
+		} else if len(lost) > 0 || len(dup) > 0 {
 			r.Report("stress/conservation", fmt.Sprintf("run %d: %d ids pushed; lost %v; duplicated %v", run, total, lost[:min(3, len(lost))], dup[:min(3, len(dup))]), map[string]any{"lists": lists, "producers": nprod, "blocking_consumers": nblk})
 		}
 		// a list that is non-empty at the end while blocking consumers were still running would have been drained:
 		for _, l := range lists {
+			if infinite {
+				break // judged above, while the consumers were still connected
+			}
 			if v, _ := fin.Do("LLEN", l); v.Int > 0 {
 				r.Report("stress/elements-left-with-waiters", fmt.Sprintf("run %d: list %s still holds %d elements although %d blocking consumers kept popping it for 10 s", run, l, v.Int, nblk), nil)
 			}
@@ -670,18 +821,166 @@ func c11Stress(r *verdict.Run, runs int, race bool) {
 		}
 		r.Eval(total)
 		r.Count("stress_elements", int64(total))
-		r.Distinct(fmt.Sprintf("stress/lists%d/prod%d/blk%d/nb%d", nlists, nprod, nblk, nnb))
+		r.Distinct(fmt.Sprintf("stress/lists%d/prod%d/blk%d/nb%d/infinite=%v", nlists, nprod, nblk, nnb, infinite))
 	})
 }
 
 func checkC11(r *verdict.Run) {
 	r.Rule = "(1) hook-driven schedules for each of BLPOP/BRPOP/BLMOVE/BRPOPLPUSH/BLMPOP (single and multi-key): a push landing before registration / after registration / between capture and wait; a woken waiter parked before its retry while LPOP/RPOP/LMOVE/DEL/LTRIM/RENAME/LPOP n/LMPOP takes the element, then a second push (must be served); three waiters in confirmed registration order with one push and with a two-element push; a multi-key waiter served through one key then a push to its other key; " +
-		"oracles: served within 3 s (violation only if a canary shows the emulator responsive), stays blocked for 400 ms, exactly-once conservation, longest waiter first. (2) random stress with yields inside the block/wake loop: unique ids, conservation, no list left non-empty while blocking consumers run, left-end order per producer. distinct = schedules + stress configurations"
+		"oracles: served within 3 s (violation only if a canary shows the emulator responsive), stays blocked for 400 ms, exactly-once conservation, longest waiter first. (2) random stress with yields inside the block/wake loop: unique ids, conservation, no list left non-empty while blocking consumers run, left-end order per producer; every other stress run blocks without timeouts (a finite timeout heals a lost wake-up) and reports consumers that stay blocked on a non-empty list; (3) bursts: k clients block once on a fresh list, then k separate pushes (RPUSH/LPUSH/RPUSHX/LPUSHX/LMOVE/RPOPLPUSH) arrive in one write or one MULTI/EXEC: every waiter must complete while elements remain. distinct = schedules + stress configurations + burst shapes"
 	c11Scenarios(r, false)
 	c11Stress(r, tierPick(r, 16, 300), false)
+	c11Bursts(r, tierPick(r, 16, 200))
 	if r.Tier == "thorough" {
 		c11Scenarios(r, true)
 		c11Stress(r, 16, true)
 	}
 	r.Assume("'stays blocked' is a bounded observation (400 ms); 'must be served' uses a 3 s watchdog and requires a responsive canary")
+}
+
+// c11Bursts: k clients block on one fresh list (each exactly once, no timeout); when all of them are blocked a
+// producer sends k separate push commands in ONE write (optionally wrapped in MULTI/EXEC), so that pushes arrive
+// while earlier woken waiters have not retried yet. Every waiter must complete, every element is delivered once.
+// (The long stress cannot see this class: its consumers come back at once and drain what a lost wake-up left.)
+func c11Bursts(r *verdict.Run, runs int) {
+	parallel(runs, 8, func(run int) {
+		rng := shardRng(r, 5000+run)
+		c, err := startChild(false)
+		if err != nil {
+			r.Inconclusive("cannot start child")
+			return
+		}
+		defer c.Stop()
+		e, err := startEmu(c, "")
+		if err != nil {
+			r.Inconclusive("infra: " + err.Error())
+			return
+		}
+		c.Ctl("seed %d", r.Seed*71+int64(run))
+		if run%2 == 0 {
+			c.Ctl("yield blk: 400 400") // widen the window between a wake-up and the retry
+		}
+		prod, err := e.dial()
+		if err != nil {
+			return
+		}
+		defer prod.Close()
+		for iter := 0; iter < 12; iter++ {
+			k := 2 + rng.Intn(4)
+			q := fmt.Sprintf("bq%d", iter)
+			src := fmt.Sprintf("bsrc%d", iter)
+			var ws []*waiter
+			var forms []string
+			for i := 0; i < k; i++ {
+				w, err := newWaiter(e)
+				if err != nil {
+					return
+				}
+				defer w.cn.Close()
+				f := blkForms[rng.Intn(len(blkForms))]
+				w.issue(f.args([]string{q}, "0"), 60*time.Second)
+				ws = append(ws, w)
+				forms = append(forms, f.name)
+			}
+			// all k must be blocked before the burst
+			ready := false
+			for t := time.Now(); time.Since(t) < 5*time.Second; time.Sleep(2 * time.Millisecond) {
+				if n, _ := c11Blocked(prod); n >= k {
+					ready = true
+					break
+				}
+			}
+			if !ready {
+				r.Inconclusive("burst: the waiters did not all block")
+				return
+			}
+			// the burst: k single-element pushes of random kinds in one write
+			var cmds [][]string
+			var ids []string
+			mode := []string{"pipeline", "multi"}[rng.Intn(2)]
+			var pre [][]string
+			for i := 0; i < k; i++ {
+				id := fmt.Sprintf("el-%d-%d-%d", run, iter, i)
+				ids = append(ids, id)
+				kind := rng.Intn(6)
+				if i == 0 && (kind == 2 || kind == 3) {
+					kind = 0 // PUSHX needs an existing list
+				}
+				switch kind {
+				case 0:
+					cmds = append(cmds, []string{"RPUSH", q, id})
+				case 1:
+					cmds = append(cmds, []string{"LPUSH", q, id})
+				case 2:
+					cmds = append(cmds, []string{"RPUSHX", q, id})
+				case 3:
+					cmds = append(cmds, []string{"LPUSHX", q, id})
+				case 4:
+					pre = append(pre, []string{"RPUSH", src, id})
+					cmds = append(cmds, []string{"LMOVE", src, q, "LEFT", "RIGHT"})
+				case 5:
+					pre = append(pre, []string{"RPUSH", src, id})
+					cmds = append(cmds, []string{"RPOPLPUSH", src, q})
+				}
+			}
+			for _, p := range pre {
+				prod.Do(p...)
+			}
+			if mode == "multi" {
+				cmds = append(append([][]string{{"MULTI"}}, cmds...), []string{"EXEC"})
+			}
+			if _, err := prod.Pipeline(cmds); err != nil {
+				r.Report("burst/no-reply", fmt.Sprintf("the producer got no reply to its burst: %v", err), nil)
+				return
+			}
+			served := 0
+			got := map[string]int{}
+			for _, w := range ws {
+				if w.finished(3 * time.Second) {
+					served++
+					for _, el := range elements(w.reply) {
+						got[el]++
+					}
+				}
+			}
+			r.Eval(1)
+			script := map[string]any{"waiters": forms, "burst": quoteCmds(cmds), "setup": quoteCmds(pre), "mode": mode}
+			if served < k {
+				can := newCanary(e.port)
+				alive, why := can.check(3 * time.Second)
+				can.close()
+				if !alive {
+					r.Inconclusive("emulator unresponsive during a burst: " + why)
+					return
+				}
+				ll, _ := prod.Do("LLEN", q)
+				nb, _ := c11Blocked(prod)
+				if ll.Int > 0 {
+					r.Report("burst/lost-wakeup/blocked-on-non-empty-list", fmt.Sprintf("run %d iteration %d: %d clients blocked on %s, then %d pushes in one write (%s): only %d were served within 3 s although the list still holds %s elements (%d clients flagged blocked)", run, iter, k, q, k, mode, served, ll, nb), script)
+					return
+				}
+				// list empty: the unserved waiters have nothing to get (a PUSHX after a fast waiter had emptied the list
+				// legitimately pushes nothing); plain pushes must release them
+				for i := served; i < k; i++ {
+					prod.Do("RPUSH", q, fmt.Sprintf("el-fill-%d-%d-%d", run, iter, i))
+				}
+				for _, w := range ws {
+					if !w.finished(3 * time.Second) {
+						ll, _ := prod.Do("LLEN", q)
+						r.Report("burst/lost-wakeup/not-served-by-later-push", fmt.Sprintf("run %d iteration %d: a client stayed blocked on %s after further pushes (LLEN = %s)", run, iter, q, ll), script)
+						return
+					}
+				}
+			}
+			for id, n := range got {
+				if n > 1 {
+					r.Report("burst/duplicate", fmt.Sprintf("run %d iteration %d: element %s was delivered %d times", run, iter, id, n), script)
+				}
+			}
+			r.Distinct(fmt.Sprintf("burst/k%d/%s", k, mode))
+			for _, w := range ws {
+				w.cn.Close()
+			}
+		}
+	})
 }
